@@ -181,7 +181,7 @@ def fromstr_rule(F, rep, ty):
     for c in tir.walk(accept):
         if c.get("k") == "Call" and (declared(c) or "").endswith("Ok") and len(c["args"]) == 1:
             ctor = strip(c["args"][0])
-            if ctor.get("k") == "Call" and (declared(ctor) or "") == ty and len(ctor["args"]) == 3:
+            if ctor.get("k") == "Call" and ((declared(ctor) or "") == ty or (ctor.get("res") == "selfctor" and (ctor.get("ty") or "") == ty)) and len(ctor["args"]) == 3:
                 comps = [component(a) for a in ctor["args"]]
                 good = comps == names
                 detail = "components parsed from bindings %s, pattern bindings %s" % (comps, names)
